@@ -347,7 +347,7 @@ def shrink_candidates(req):
     """token-level and byte-level reductions of the hex arguments of a request line"""
     f = req.split(" ")
     cands = []
-    if f[0] == "pair":
+    if f[0] in ("pair", "extpair", "lipair"):
         return []       # the two arguments are related by construction; independent reductions would break the relation
     if f[0] == "hist":
         # drop one op; simplify nothing else
